@@ -1001,6 +1001,7 @@ func c03R17to19(ic *IC, x *c02ctx, r *Report) {
 }
 
 func init() {
+	ruleText["R03.22"] = "= R12.32: the conversion of a typed numeric constant is checked for representability in the target type (typecheck.conversion obtains the constant from the operand's value through constantOf)"
 	ruleText["R03.21"] = "a constant folder obtains its result from go/constant: the value a function of the constOp table stores for a constant operand is the result of constant.BinaryOp, UnaryOp, Shift or Compare called in the folder, or of an in-package helper all of whose returns are such calls - a helper answering some operands itself (a shortcut for large shift counts) replaces the exact result by its author's arithmetic"
 }
 
